@@ -7,6 +7,7 @@ package main
 import (
 	"encoding/json"
 	"fmt"
+	"regexp"
 	"strconv"
 	"strings"
 	"time"
@@ -189,13 +190,24 @@ func deq(a, b gedcom.Node) (res bool, panicMsg string) {
 // nonTransitiveTriple: some sibling multiset of a contains x,y,z with
 // DeepEqual(x,y), DeepEqual(x,z), !DeepEqual(y,z) — the known weakness of the
 // greedy child matching.
+var dateLine = regexp.MustCompile(`(?m)^(\d+ DATE).*$`)
+
+// blankDates is the node's text with every DATE value removed.
+func blankDates(n gedcom.Node) string {
+	return dateLine.ReplaceAllString(gedcom.GEDCOMString(n, 0), "$1")
+}
+
 func nonTransitiveTriple(n gedcom.Node) bool {
 	kids := n.Nodes()
 	for i := range kids {
 		for j := range kids {
 			for k := range kids {
 				if i != j && i != k && j < k {
-					if gedcom.DeepEqual(kids[i], kids[j]) && gedcom.DeepEqual(kids[i], kids[k]) && !(gedcom.DeepEqual(kids[j], kids[k]) && gedcom.DeepEqual(kids[k], kids[j])) {
+					// the known root cause is the constraint-aware DATE equality: the witnesses must be
+					// identical up to DATE values, otherwise the non-transitivity has another cause and
+					// is not the known finding
+					if gedcom.DeepEqual(kids[i], kids[j]) && gedcom.DeepEqual(kids[i], kids[k]) && !(gedcom.DeepEqual(kids[j], kids[k]) && gedcom.DeepEqual(kids[k], kids[j])) &&
+						blankDates(kids[i]) == blankDates(kids[j]) && blankDates(kids[i]) == blankDates(kids[k]) {
 						return true
 					}
 				}
@@ -504,6 +516,8 @@ func run(tier, unit string, r *vlib.Rec) {
 		runWide(r)
 	case "kinds":
 		runKinds(r, lo, hi, n)
+	case "classes":
+		runClasses(r, lo, hi)
 	case "pairs": // all ordered pairs of trees with exactly n and m<=n nodes over the halved alphabet
 		var trees []Tree
 		for m := 1; m <= n; m++ {
@@ -623,8 +637,10 @@ func runKinds(r *vlib.Rec, lo, hi int64, n int) {
 		T := buildText(text)
 		k := kase{Sub: "kinds", Arg: text}
 		for name, mk := range map[string]func() gedcom.Node{
-			"DeepCopy":        func() gedcom.Node { return gedcom.DeepCopy(T, gedcom.NewDocument()) },
-			"Filter-identity": func() gedcom.Node { return gedcom.Filter(T, gedcom.NewDocument(), func(n gedcom.Node) (gedcom.Node, bool) { return n, true }) },
+			"DeepCopy": func() gedcom.Node { return gedcom.DeepCopy(T, gedcom.NewDocument()) },
+			"Filter-identity": func() gedcom.Node {
+				return gedcom.Filter(T, gedcom.NewDocument(), func(n gedcom.Node) (gedcom.Node, bool) { return n, true })
+			},
 		} {
 			var C gedcom.Node
 			if p, msg, frame := vlib.Try(func() { C = mk() }); p {
@@ -671,6 +687,7 @@ func plan(tier string) []string {
 	out = append(out, vlib.Chunks(fmt.Sprintf("rtree:%d", N+1), int64(len(gen.AllTrees(N+1)))*gen.Pow(len(pairAlphabet), N+1), 600)...)
 	out = append(out, vlib.Chunks(fmt.Sprintf("pairs:%d", M), pairTreeCount(M), 60)...)
 	out = append(out, "wide:0:0:1")
+	out = append(out, vlib.Chunks("classes:0", int64(len(classPool)), 2)...)
 	for n := 1; n <= 3; n++ {
 		out = append(out, vlib.Chunks(fmt.Sprintf("kinds:%d", n), int64(len(gen.AllTrees(n)))*gen.Pow(len(kindLabels), n), 3000)...)
 	}
@@ -693,6 +710,10 @@ func replay(c json.RawMessage) (string, string) {
 			return "asymmetric:DeepEqualNodes", obs
 		}
 		return "", obs
+	}
+	if k.Sub == "classes" {
+		sig, what := checkClasses(strings.Split(k.Arg, "\x00"))
+		return sig, what
 	}
 	if k.Sub == "wide" || k.Sub == "kinds" {
 		rr := vlib.NewReplayRec()
@@ -733,11 +754,11 @@ func main() {
 	vlib.Main(&vlib.Check{
 		ID:    "C07",
 		Level: "exploration",
-		Rule: "cases: every tree with <=N nodes over a 24-label alphabet with one or two labels per equality rule (plain, pointered, BIRT/DEAT/BURI/BAPM, RESI, EVEN, six DATE value classes, valid/malformed _UID, NAME, PLAC, INDI/FAM roots in a document, HUSB under FAM); per tree: 3 copy paths, every re-ordering of children at every level, every single insert/delete/change edit, every single mutation of copy or source; plus every ordered pair of trees with <=M nodes over a 12-label alphabet (symmetry). " +
+		Rule: "cases: every tree with <=N nodes over a 24-label alphabet with one or two labels per equality rule (plain, pointered, BIRT/DEAT/BURI/BAPM, RESI, EVEN, six DATE value classes, valid/malformed _UID, NAME, PLAC, INDI/FAM roots in a document, HUSB under FAM); per tree: 3 copy paths, every re-ordering of children at every level, every single insert/delete/change edit, every single mutation of copy or source; plus every ordered pair of trees with <=M nodes over a 12-label alphabet (symmetry); plus every multiset of 2..3 siblings from a pool of " + fmt.Sprint(len(classPool)) + " subtrees built around each specialised Equals rule (equal with different text, equal through substructure only, unequal) x every re-ordering, with both arguments' text compared before and after every DeepEqual. " +
 			"Non-trivial = trees with >=2 nodes; distinct by GEDCOM text.",
 		Assumptions: []string{
 			"trees are built by decoding their own text (INDI/FAM/HUSB need a document context)",
-			"the non-transitive-sibling-triple predicate (known finding) is evaluated with the implementation's own DeepEqual on the sibling multisets of the failing tree",
+			"the non-transitive-sibling-triple predicate (known finding) is evaluated with the implementation's own DeepEqual on sibling triples of the failing tree that are identical up to DATE values (the known root cause is the constraint-aware DATE equality; any other non-transitivity is a new violation)",
 			"no random permutations of large trees (sampling is a different family)",
 		},
 		Plan:   plan,
